@@ -90,8 +90,8 @@ module.exports = {
   assumptions: ['V8 of node 20 and acorn 8.16 decide validity; inputs V8 rejects are skipped and counted', 'feeding an output back uses a different prefix so that the collision refusal does not hide a syntax error'],
   plan (ctx) {
     const shards = [{ kind: 'asi' }]
-    for (const s of structPlan(ctx, { quickCorpus: 150, exec: { quickRandom: 500, quickFormsPerPlacement: 4 } })) shards.push(s)
-    const nMut = ctx.tier === 'thorough' ? 20000 : 1200
+    for (const s of structPlan(ctx, { quickCorpus: 320, exec: { quickRandom: 2000, quickFormsPerPlacement: 8, thoroughRandom: 30000 } })) shards.push(s)
+    const nMut = ctx.tier === 'thorough' ? 40000 : 4000
     for (let k = 0; k < nMut / 200; k++) shards.push({ kind: 'mutated', count: 200, stream: k })
     return shards
   },
